@@ -419,7 +419,15 @@ fn tok_of_code(c: char, file: &str) -> Option<Token> {
 }
 
 fn run_program(d: &DState, src: &str, args: &[&str]) -> String {
-    let main_path = d.main_path();
+    // rel=1: start the interpreter as `pakhi main.pakhi` from inside the root directory (bare, relative main path)
+    let main_path = if kv(args, "rel").is_some() {
+        if std::env::set_current_dir(&d.root).is_err() {
+            return "out=- status=harness-error-chdir".to_string();
+        }
+        "main.pakhi".to_string()
+    } else {
+        d.main_path()
+    };
     let steps: usize = kv(args, "steps").and_then(|s| s.parse().ok()).unwrap_or(2_000_000);
     let mode = gc_mode_of(kv(args, "gc").unwrap_or("native"));
     let want_fs = kv(args, "fs").is_some();
